@@ -234,14 +234,58 @@ def rule_watched_where_restart_looks(ctx):
         ctx.check(guarded, cl.fq, f"{ast.unparse(c.func)}(...) cannot end the loop with an OSError", "the call is unguarded: a directory that is moved and removed (or created and removed) in quick succession makes it raise EINVAL/ENOENT, the watcher task dies and the director exits, whereas a restart on the same tree builds fine", "try/except OSError or suppress(OSError)", where=ctx.where_of(cl, c))
 
 
+def rule_subtree_watches_go_with_directory(ctx):
+    """R-C14-5: when a watched directory goes away, the watches of the directories below it are dropped too.
+
+    An inotify watch follows the inode.  After `mv data other` the watch of data/sub sits on other/sub, reports
+    events under the old path, and its non-None entry keeps a re-created data/sub from ever being watched: the
+    watch-mode rebuild misses what a restart (which looks at paths) sees.
+    """
+    cl = ctx.prog.func("watcher.AsyncInotifyWrapper.change_loop")
+    # the arm for a directory that was deleted or moved away
+    arms = []
+    for n in ast.walk(cl.node):
+        if isinstance(n, ast.If) and "Mask.ISDIR" in ast.unparse(n.test):
+            for m in n.body:
+                if isinstance(m, ast.If) and "Change.DELETED" in ast.unparse(m.test):
+                    arms.append(m)
+    if len(arms) != 1:
+        raise AnalysisError(f"change_loop: {len(arms)} arms for removed directories found")
+    arm = arms[0].body
+    own = any(isinstance(a, ast.Assign) and ast.unparse(a.targets[0]) == "self.watches[path]" and ast.unparse(a.value) == "None" for st_ in arm for a in ast.walk(st_))
+    ctx.check(own, cl.fq, "the removed directory's own watch is unset", "own watch kept", "self.watches[path] = None")
+    loops = [l for st_ in arm for l in ast.walk(st_) if isinstance(l, ast.For) and "self.watches" in ast.unparse(l.iter)]
+    ok = False
+    why = "no loop over self.watches in the arm"
+    for l in loops:
+        tgt = {x.id for x in ast.walk(l.target) if isinstance(x, ast.Name)}
+        conds = [ast.unparse(i.test) for i in ast.walk(l) if isinstance(i, ast.If)]
+        prefix_test = any(".startswith(" in c and any(t in c for t in tgt) for c in conds)
+        unsets = any(isinstance(a, ast.Assign) and isinstance(a.targets[0], ast.Subscript) and ast.unparse(a.targets[0].value) == "self.watches" and ast.unparse(a.value) == "None" and any(isinstance(x, ast.Name) and x.id in tgt for x in ast.walk(a.targets[0].slice)) for a in ast.walk(l))
+        removes = any(callee_name(c) == "rm_watch" for c in calls_in(l))
+        if prefix_test and unsets and removes:
+            ok = True
+        else:
+            why = f"loop found, prefix test={prefix_test}, entry unset={unsets}, rm_watch={removes}"
+    ctx.check(ok, cl.fq, "watches under the removed directory are removed and unset", f"{why}: after `mv data other; mkdir -p data/sub` the new data/sub is never watched (its stale entry is not None) and events below other/ are reported under data/", "loop over self.watches with a prefix test, rm_watch and = None", where=ctx.where_of(cl, arms[0]))
+    # the prefix is separator-terminated (data/ must not take data2/ with it)
+    pre = [a for st_ in arm for a in ast.walk(st_) if isinstance(a, ast.Assign) and isinstance(a.targets[0], ast.Name) and re.search(r"path\s*/\s*''|os\.sep|'/'", ast.unparse(a.value))]
+    used = any(isinstance(c.func, ast.Attribute) and c.func.attr == "startswith" and c.args and isinstance(c.args[0], ast.Name) and c.args[0].id in {a.targets[0].id for a in pre} for st_ in arm for c in calls_in(st_))
+    ctx.check(used or not ok, cl.fq, "the subtree prefix ends in a separator", "the prefix test compares with the bare directory name: a sibling whose name starts with it loses its watch as well", "path / ''")
+
+
 RULES = [
     Rule("R-C14-1", "same reactions on both sides", rule_same_reactions, min_instances=10),
     Rule("R-C14-2", "same relevance filter", rule_same_filter, min_instances=5),
     Rule("R-C14-3", "event folding keeps the sets disjoint", rule_event_folding, min_instances=15),
+    Rule("R-C14-5", "a removed directory takes the watches of its subtree with it", rule_subtree_watches_go_with_directory, min_instances=3),
     Rule("R-C14-4", "the watcher looks where a restart looks", rule_watched_where_restart_looks, min_instances=6),
 ]
 
 MUTANTS = [
+    Mutant("subtree-watches-kept", "watcher.py", in_function("AsyncInotifyWrapper.change_loop", lambda t: t.replace("                        if sub_watch is not None and sub_path.startswith(prefix):\n                            with contextlib.suppress(OSError):\n                                self.inotify.rm_watch(sub_watch)\n                            self.watches[sub_path] = None\n", "                        pass\n", 1) if "sub_path.startswith(prefix)" in t else None), ("R-C14-5",)),
+    Mutant("subtree-prefix-without-separator", "watcher.py", in_function("AsyncInotifyWrapper.change_loop", replace_once('                    prefix = path / ""\n', "                    prefix = path\n")), ("R-C14-5",)),
+    Mutant("subtree-watches-not-unset", "watcher.py", in_function("AsyncInotifyWrapper.change_loop", replace_once("                            self.watches[sub_path] = None\n", "                            pass\n")), ("R-C14-5",)),
     Mutant("rm-watch-unguarded", "watcher.py", in_function("AsyncInotifyWrapper.change_loop", replace_once("                        with contextlib.suppress(OSError):\n                            self.inotify.rm_watch(watch)\n", "                        self.inotify.rm_watch(watch)\n")), ("R-C14-4",)),
     Mutant("draining-reset-after-watcher", "director.py", in_function("DirectorHandler.start_build_phase", lambda s: s.replace("        self.scheduler.draining = False\n", "", 1).replace("        self.builder.resume.set()\n", "        self.scheduler.draining = False\n        self.builder.resume.set()\n", 1) if "        self.scheduler.draining = False\n" in s else None), ("R-C14-1",)),
     Mutant("rebuild-retries-attached-only", "director.py", in_function("DirectorHandler.start_build_phase", replace_once("self.workflow.steps(StepState.FAILED, include_detached=True)", "self.workflow.steps(StepState.FAILED)")), ("R-C14-1",)),
